@@ -17,7 +17,7 @@ from vf.ref import hdlc_ref
 ID = "C01"
 LEVEL = "exploration"
 RULE = (
-    "stream = 1..6 items (every 40th stream 60..220 items, 10..40 KB) (well-formed frame, 30% with boundary-value check sequences: HCS/FCS 0000, FFFF, ending in 7D, containing 7E, "
+    "stream = 1..6 items (every 40th stream 100..400 items, 15..70 KB, also fed as one tiny call followed by one huge call) (well-formed frame, 30% with boundary-value check sequences: HCS/FCS 0000, FFFF, ending in 7D, containing 7E, "
     "running FCS register 0000 mid-frame, near-maximum flag/escape-dense frames / corrupted frame [bit flip, truncation incl. right after the HCS, extra octets, "
     "wrong length field with HCS+FCS recomputed, swapped FCS] / noise [random, flag+escape dense, frame look-alike, abort sequence]) "
     "joined by 0..3 flags, stuffed on the wire when the configuration uses stuffing; each stream is run under one of the 4 reader "
@@ -50,7 +50,7 @@ def make_stream(rng, cfg, big: bool = False) -> tuple[bytes, list]:
         parts += nz
         desc.append(("noise", fl))
     parts += bytes([0x7E]) * rng.choice((1, 1, 2, 3))
-    n_items = rng.randint(1, 6) if not big else rng.randint(60, 220)
+    n_items = rng.randint(1, 6) if not big else rng.randint(100, 400)
     for _ in range(n_items):
         r = rng.random()
         if r < 0.5:
@@ -139,6 +139,8 @@ def run(shard: dict, ctx) -> None:
             ctx.count(f"item_{d[0]}" + (f"_{d[1]}" if d[0] != "good" else "") + ("_special" if d[0] == "good" and str(d[1]).startswith("special") else ""))
         specs = [("none",), ("bytewise",) if len(stream) < 6000 else ("fixed", 4096, rng.randrange(4096))] + [splits.random_spec(rng, len(stream), False) for _ in range(2)]
         specs.append(splits.limit_spec(rng, len(stream)))
+        if big:
+            specs.append(("single", rng.randint(1, 40)))  # a tiny first call, then everything else in one huge call
         specs.append(splits.aligned_spec(stream, 0x7E, rng.choice((1, 1, 2, 5))))
         if len(stream) <= 48:
             specs += [("single", c) for c in range(1, len(stream))]
